@@ -100,7 +100,15 @@ impl<'r> Samples<'r> {
             if src.is_empty() {
                 None
             } else {
-                Some(read_series(&mut src, self.sample_count))
+                let result = read_series(&mut src, self.sample_count);
+
+                // The position of the next series is unknown after an invalid one. Stop after the
+                // first error rather than returning one for each of the remaining bytes.
+                if result.is_err() {
+                    src = &[];
+                }
+
+                Some(result)
             }
         })
     }
@@ -163,5 +171,27 @@ impl vcf::variant::record::Samples for Samples<'_> {
             self.iter()
                 .map(|sample| Box::new(sample) as Box<dyn vcf::variant::record::samples::Sample>),
         )
+    }
+}
+
+#[cfg(test)]
+mod tests {
+    use super::*;
+
+    #[test]
+    fn test_series_with_an_invalid_series() {
+        let src = [
+            0x11, 0x01, // key = 1
+            0x11, // type = i8, len = 1
+            0x05, 0x08, // values = [5, 8]
+            0xf1, 0xf1, 0xf1, 0xf1, // invalid key
+        ];
+
+        let samples = Samples::new(&src, 2, 1);
+        let mut series = samples.series();
+
+        assert!(matches!(series.next(), Some(Ok(_))));
+        assert!(matches!(series.next(), Some(Err(_))));
+        assert!(series.next().is_none());
     }
 }
